@@ -36,11 +36,19 @@ Theorem http_quote_no_structure : forall safe bs c,
   c <> 63%N /\ c <> 35%N /\ c <> 32%N /\ c <> 47%N /\ c <> 92%N.
 Proof. exact quote_no_structure. Qed.
 Print Assumptions http_quote_no_structure.
+(* hypotheses satisfiable together: the bytes of "a?/# \\" + e-acute quoted with '/' safe; '%' occurs in the output *)
+Example http_quote_no_structure_hyps_sat :
+  Forall (fun b => (b < 256)%N) [97;63;47;35;32;92;195;169]%N /\ In 37%N (quote [47%N] [97;63;47;35;32;92;195;169]%N) /\ memN 37%N [47%N] = false.
+Proof. split; [repeat constructor|split; [vm_compute; tauto|reflexivity]]. Qed.
 
 Theorem quote_roundtrip : forall safe bs,
   Forall (fun b => (b < 256)%N) bs -> memN PCT safe = false -> unquote (quote safe bs) = bs.
 Proof. exact unquote_quote. Qed.
 Print Assumptions quote_roundtrip.
+Example quote_roundtrip_hyps_sat :
+  Forall (fun b => (b < 256)%N) [97;63;47;35;32;92;37;195;169]%N /\ memN PCT [47%N] = false /\
+  quote [47%N] [97;63;47;35;32;92;37;195;169]%N <> [97;63;47;35;32;92;37;195;169]%N.
+Proof. split; [repeat constructor|split; [reflexivity|vm_compute; discriminate]]. Qed.
 
 (* 5. HTTP: whatever the file name is, the URL obtained by substituting %s %q %d %n %e %% in ANY template has exactly
       as many '?', '#', spaces and backslashes as the template: the name cannot add query or fragment structure *)
@@ -48,7 +56,16 @@ Theorem http_url_structure : forall k tpl u c, comps_ok k ->
   subst k tpl = Some u -> (c = 63 \/ c = 35 \/ c = 32 \/ c = 92)%N -> count c u = count c tpl.
 Proof. exact url_structure_preserved. Qed.
 Print Assumptions http_url_structure.
+(* hypotheses satisfiable together: file "d e/a?b #.x" (dir "d e", name "a?b #", ext ".x") substituted into the
+   template "http://h/%d/%n%e?x=%q#f%%" (all five placeholders and the escape); the substitution succeeds *)
+Definition ex_comps : comps :=
+  mkComps [100;32;101;47;97;63;98;32;35;46;120]%N [100;32;101]%N [97;63;98;32;35]%N [46;120]%N.
+Definition ex_tpl : str := [104;116;116;112;58;47;47;104;47;37;100;47;37;110;37;101;63;120;61;37;113;35;102;37;37]%N.
+Example http_url_structure_hyps_sat :
+  comps_ok ex_comps /\ (exists u, subst ex_comps ex_tpl = Some u /\ length u = 55%nat) /\ (63 = 63 \/ 63 = 35 \/ 63 = 32 \/ 63 = 92)%N /\
+  count 63%N ex_tpl = 1%nat.
+Proof. split; [repeat split; repeat constructor|split; [eexists; split; reflexivity|split; [now left|reflexivity]]]. Qed.
 
-(* non-vacuity: a path that tries to climb *)
+(* non-vacuity: a path that tries to climb (two '..' against a one-segment base) *)
 Example climb : normalize [46;46;47;46;46;47;120]%N [115;117;98]%N = [[120]%N].
 Proof. reflexivity. Qed.
